@@ -6,6 +6,7 @@ import os
 from ..common import REPO, Inconclusive
 from . import synast, pharness, irjson
 from .engine import new_interp
+from .values import Unsupported
 
 
 def parser_selftest(prog, rep, limit=None):
@@ -18,8 +19,11 @@ def parser_selftest(prog, rep, limit=None):
         name = d.split("/")[-2]
         I = new_interp(prog)
         try:
-            f = synast.parse_source(prog, src)
-            r = pharness.run_visitor(I, f)
+            from . import parse_entry
+            pr = parse_entry.run_parse(I, src)      # parser::parse itself: text pre-filter, syn::parse_file model, visitor
+            if pr.variant != 0:
+                raise Unsupported("parser::parse returned Err")
+            r = pr.fields[0]
             mine = None if r.variant == 0 else irjson.parsed_data_json(I, r.fields[0])
         except Inconclusive:
             raise
